@@ -1,5 +1,6 @@
 import FitProps.RawLemmas
 import FitProps.LinkLemmasInteg
+import FitProps.LinkLemmasDefs
 /-!
 LINK independent framing spec (`FitModel/FitFormat.lean`) → raw decoder model (`FitModel/Raw.lean`, C16): whenever the
 spec segments a stream, the raw decoder accepts it and hands its callback exactly those segments (kind, offset, length).
@@ -10,15 +11,6 @@ set_option linter.unusedVariables false
 
 namespace Fit.Link
 open Fit.ReadBuffer Fit.Raw Fit.Gen.Reader
-
-def kindOfFlag (f : Nat) : FitFormat.Kind :=
-  if f = rawFlagFileHeader then .header else if f = rawFlagMesgDef then .definition
-  else if f = rawFlagMesgData then .data else .crc
-
-/-- the callback invocations as (kind, offset in the stream, length), the first at offset `off` -/
-def layout : Nat → List Seg → List (FitFormat.Kind × Nat × Nat)
-  | _, [] => []
-  | off, s :: ss => (kindOfFlag s.flag, off, s.bytes.length) :: layout (off + s.bytes.length) ss
 
 theorem layout_append (off : Nat) (a b : List Seg) : layout off (a ++ b) = layout off a ++ layout (off + (flat a).length) b := by
   induction a generalizing off with
